@@ -158,6 +158,13 @@ def _harvest():
             ("1.0.0", "snote(n12,[G,n],9,1:3,0,1/4,2.0000,3.0000,[v1,staff1])-deletion."),
             ("0.5.0", "snote(n10,[c,n],-1,1:1,0,1/4,0.0,1.0,[s])-deletion."),
             ("0.3.0", "snote(n10,[a,#],-1,1:1,0,1/4,0.0,1.0,[s])-deletion."),
+            # spellings across the octave boundary (B sharp sounds in the octave above its number, C flat in the one below)
+            ("0.1.0", "insertion-note(86,[b,#],3,1000.00,2000.00,30)."), ("0.3.0", "insertion-note(209,[c,b],4,100,250,249,30)."),
+            ("0.5.0", "snote(n13,[b,#],4,1:1,0,1/4,0.0,1.0,[s])-note(210,[b,#],4,3763,4020,4019,72)."),
+            ("0.4.0", "snote(n14,[c,b],5,1:1,0,1/4,0.0,1.0,[s])-note(211,[c,b],5,3763,4020,3900,72)."),
+            ("0.2.0", "snote(n15,[b,n],5,1:2,0/1,1/4,1.00000,3.00000,[s])-note(18,[b,x],2,72600.75,75380.25,26)."),
+            # the older spelling of the attribute that names the performance file
+            ("0.5.0", "info(midiFilename,'perf.mid')."), ("0.3.0", "info(midiFilename,'take2.mid')."),
             # quoted text values of the old versions with an apostrophe, a comma-free phrase, digits
             ("0.5.0", "info(piece,'L'isle joyeuse')."),
             ("0.3.0", "info(composer,'Claude Debussy')."),
@@ -341,6 +348,14 @@ def _bounded(b):
                                 good, why = False, "field %s: tick time %r became %r after upgrading (not the nearest tick)" % (f, x, y)
                         elif str(x) != str(y) and not (isinstance(x, float) and abs(x - float(y)) < 1e-9):
                             good, why = False, "field %s: %r became %r after upgrading" % (f, x, y)
+                    # the MIDI pitch a 1.0.0 note carries is the pitch of the old note's spelling (own twelve-tone arithmetic)
+                    if all(hasattr(obj_, f) for f in ("NoteName", "Modifier", "Octave")) and "MidiPitch" in getattr(up_, "field_names", ()):
+                        try:
+                            spelled = 12 * (int(obj_.Octave) + 1) + {"C": 0, "D": 2, "E": 4, "F": 5, "G": 7, "A": 9, "B": 11}[str(obj_.NoteName).upper()] + int(obj_.Modifier or 0)
+                        except (KeyError, ValueError, TypeError):
+                            spelled = None
+                        if spelled is not None and int(up_.MidiPitch) != spelled:
+                            good, why = False, "note %s%+d in octave %s sounds at MIDI pitch %d, the upgraded note carries %r" % (obj_.NoteName, int(obj_.Modifier or 0), obj_.Octave, spelled, up_.MidiPitch)
                 base_kind = lambda c: re.sub(r"^Match", "", c).replace("Meta", "ScoreProp")
                 b.case("upgrade/to_v1_keeps_kind_and_musical_content", good, case, why, nontrivial=nontriv, key=repr(key))
                 # the upgraded line, written after the old line has been written, is a 1.0.0 line that survives its own round trip
